@@ -91,6 +91,15 @@ def answer (l : String) : String :=
         | none => "verr"
         | some v => toString (Pep440.rangeMatch r v)
     | _, _ => "bad-op"
+  | ["pepand", b, x, y, t] =>
+    match str b, str x, str y, str t with
+    | some b, some x, some y, some t =>
+      match Pep440.parseRange b, Pep440.parseRange x, Pep440.parseRange y with
+      | some rb, some rx, some ry => match Pep440.parse t with
+        | none => "verr"
+        | some v => s!"{Pep440.rangeMatch rb v} {Pep440.rangeMatch (rb ++ rx) v} {Pep440.rangeMatch (rb ++ ry) v}"
+      | _, _, _ => "err"
+    | _, _, _, _ => "bad-op"
   | ["gem", s] =>
     match str s with
     | none => "bad-op"
